@@ -268,6 +268,14 @@ async def driver():
     raise RuntimeError("the application did not end")
 
 
+class NeverEnded(BaseException):
+    """real-time watchdog: the application is still running long after everything in its script has happened"""
+
+
+def _alarm(signum, frame):
+    raise NeverEnded()
+
+
 def run_case(case):
     global WORLD
     WORLD = w = World(case)
@@ -283,9 +291,21 @@ def run_case(case):
         with warnings.catch_warnings(record=True) as caught:
             warnings.simplefilter("always")
             try:
-                ret = run_application(CliNode if case["cli"] else Node, {}, backend=case["backend"], logging=None,
-                                      start_timeout=case.get("timeout", 30))
+                root = CliNode if case["cli"] else Node
+                if len(json.dumps(case["tree"])) % 2:
+                    # the root component named the way `asphalt run` names it: by a module:attribute reference
+                    root = f"{root.__module__}:{root.__qualname__}"
+                old_alarm = signal.signal(signal.SIGALRM, _alarm)
+                signal.setitimer(signal.ITIMER_REAL, 15)
+                try:
+                    ret = run_application(root, {}, backend=case["backend"], logging=None,
+                                          start_timeout=case.get("timeout", 30))
+                finally:
+                    signal.setitimer(signal.ITIMER_REAL, 0)
+                    signal.signal(signal.SIGALRM, old_alarm)
                 outcome = {"return": repr(ret)}
+            except NeverEnded:
+                outcome = {"never_ended": True}
             except SystemExit as e:
                 outcome = {"exit": e.code if isinstance(e.code, int) and not isinstance(e.code, bool) else repr(e.code)}
             except BaseException as e:  # noqa
@@ -307,9 +327,15 @@ def run_case(case):
 def main():
     payload = json.load(sys.stdin)
     out = []
+    never = 0
     for case in payload["cases"]:
+        if never >= 2:
+            # enough: applications do not end any more; do not spend the whole budget waiting for the watchdog
+            out.append({**{k: case.get(k) for k in ("backend", "cli", "tree", "after", "ending")}, "skipped": True})
+            continue
         try:
             out.append(run_case(case))
+            never += bool(out[-1].get("outcome", {}).get("never_ended"))
         except BaseException as e:  # noqa
             import traceback
             out.append({**{k: case.get(k) for k in ("backend", "cli", "tree", "after", "ending")},
